@@ -22,7 +22,7 @@ RULE = ('Seeded scenarios: a real fit file of 1..10 sources (>= 1 fitted point a
         '(criterion, naming, channel, #good, #bad)).')
 ASSUMPTIONS = ['input records come from a real fit() run (their correctness is C10\'s subject)', 'a zero-byte output file is an empty list of records',
                'thresholds are > 0 and never equal to an attained value']
-PROBES = ['good_empty', 'bad_empty', 'both_nonempty', 'auto_names', 'channel_list', 'second_split', 'best_chi2_ge_1e30', 'output_names_reused']
+PROBES = ['good_empty', 'bad_empty', 'both_nonempty', 'auto_names', 'channel_list', 'second_split', 'best_chi2_ge_1e30', 'output_names_reused', 'synthetic_threshold_adjacent']
 
 
 def budgets(tier):
@@ -31,7 +31,26 @@ def budgets(tier):
     return {'runs': 30000, 'max_wall': 1500, 'chunk': 20}
 
 
+def _generate_synthetic(rng):
+    """Hand-made records whose best chi^2 sits ON the floating-point boundary of the criterion: threshold*n_data rounded,
+    and its neighbours one ulp below / above (the pipeline never produces such coincidences, a user's catalogue can)."""
+    steps = []
+    for k in range(rng.choice([1, 1, 2])):
+        steps.append({'criterion': rng.choice(['cpd', 'cpd', 'chi']), 'threshold': rng.choice([0.9, 0.7, 3.3, 0.35, 0.1, 1.1, 2.675, 6.0, 0.3]) * rng.choice([1, 1, 10, 0.01]),
+                      'naming': rng.choice(['explicit', 'auto']), 'channel': rng.choice(['path', 'list']), 'input': 'fit', 'reuse_names': rng.random() < 0.5})
+    recs = []
+    for i in range(rng.randint(1, 8)):
+        n = rng.randint(1, 9)
+        flags = [1] * n + [rng.choice([0, 2, 3, 9]) for _ in range(rng.randint(0, 3))]
+        rng.shuffle(flags)
+        recs.append({'flags': flags, 'nfits': rng.randint(1, 4), 'kind': rng.choice(['at', 'below', 'above', 'below', 'above', 'random']),
+                     'step': rng.randrange(len(steps)), 'u': rng.random()})
+    return {'family': 'synthetic', 'records': recs, 'steps': steps, 'clock': {'kind': 'steady'}, 'listing_seed': 0}
+
+
 def generate(rng, tier, idx):
+    if rng.random() < 0.25:
+        return _generate_synthetic(rng)
     w = gen_world(rng, n_models=(1, 6), n_wav=(5, 12), n_filters=(1, 4), n_ap=(2, 3), n_par=(1, 1), allow_gz=False, allow_subdir=False, allow_zero_band=True)
     w['ext_n'] = rng.choice([3, 8])
     nf = len(w['filters'])
@@ -84,9 +103,58 @@ def _read(p):
     return pipe.read_fit_raw(p)[1]
 
 
+def _synthetic_file(sc, sim, out):
+    import math
+    from astropy import units as u
+    from sedfitter.extinction import Extinction
+    from sedfitter.source import Source
+    e = Extinction()
+    e.wav = [0.1, 1., 10.] * u.micron
+    e.chi = [3., 2., 1.] * u.cm ** 2 / u.g
+    infos = []
+    meta = None
+    for k, r in enumerate(sc['records']):
+        st = sc['steps'][r['step'] % len(sc['steps'])]
+        nd = sum(1 for f in r['flags'] if f in (1, 4))
+        th = float(st['threshold'])
+        base = th * nd if st['criterion'] == 'cpd' else th
+        best = {'at': base, 'below': math.nextafter(base, 0.0), 'above': math.nextafter(base, math.inf)}.get(r['kind'], base * (0.2 + 1.6 * r['u']))
+        nw = len(r['flags'])
+        s_ = Source()
+        s_.name = 'syn%02d' % k
+        s_.x = float(k)
+        s_.y = 0.5
+        s_.valid = list(r['flags'])
+        s_.flux = [1.0 + j for j in range(nw)]
+        s_.error = [0.5 if f in (2, 3) else 0.1 for f in r['flags']]
+        info = pipe.FitInfo(s_)
+        n = r['nfits']
+        info.chi2 = np.array([best + 3.0 * j for j in range(n)], float)
+        info.av = np.arange(n) + 0.5
+        info.sc = np.arange(n) - 0.25
+        info.model_id = np.arange(n)[::-1].copy()
+        info.model_name = np.array(['m%03d' % j for j in range(n)])
+        info.model_fluxes = None
+        if meta is None:
+            meta = info.meta
+            meta.model_dir = 'synthetic'
+            meta.filters = [{'name': 'F%d' % j, 'aperture_arcsec': 3.0, 'wav': (1.0 + j) * u.micron} for j in range(3)]
+            meta.extinction_law = e
+        info.meta = meta
+        infos.append(info)
+    outp = sim.path('fits.fitinfo')
+    pipe.write_fit_file(outp, infos)
+    out.probe('synthetic_threshold_adjacent')
+    return None, None, outp, pipe.read_fit_raw(outp)[1]
+
+
 def _execute(sc, sim, out):
     from sedfitter import filter_output
-    fw = pipe.fitted_world(sim, sc, out, sel=sc['fit_sel'], output_convolved=sc['output_convolved'])
+    if sc.get('family') == 'synthetic':
+        fw = _synthetic_file(sc, sim, out)
+        sc = dict(sc, world={'format': 0})
+    else:
+        fw = pipe.fitted_world(sim, sc, out, sel=sc['fit_sel'], output_convolved=sc['output_convolved'])
     if fw is None:
         return
     W, d, outp, recs = fw
@@ -111,7 +179,19 @@ def _execute(sc, sim, out):
         nds = [n_data_of(x.source.valid) for x in inrecs]
         q = [b if st['criterion'] == 'chi' else b / n for b, n in zip(best, nds)]
         th = st['threshold']
-        if any(v == th or (np.isfinite(v) and abs(v - th) <= 1e-12 * abs(th)) for v in q):
+        if sc.get('family') == 'synthetic':
+            # values one ulp from the boundary ARE judged, but only where exact rational arithmetic and the plain float
+            # quotient agree on which side of the threshold the quantity lies (and it is not equal to it)
+            from fractions import Fraction
+            undecided = False
+            for b_, n_, v_ in zip(best, nds, q):
+                ex = Fraction(b_) / n_ if st['criterion'] == 'cpd' else Fraction(b_)
+                if ex == Fraction(th) or v_ == th or ((ex < Fraction(th)) != (v_ < th)):
+                    undecided = True
+            if undecided:
+                out.probe('float_vs_exact_undecided_skipped')
+                break
+        elif any(v == th or (np.isfinite(v) and abs(v - th) <= 1e-12 * abs(th)) for v in q):
             out.probe('equal_threshold_skipped')
             break
         if any(b >= 1e30 for b in best):
@@ -200,6 +280,15 @@ def _execute(sc, sim, out):
 
 
 def lowerings(sc, viol=None):
+    if sc.get('family') == 'synthetic':
+        for i in range(len(sc['records'])):
+            if len(sc['records']) > 1:
+                yield dict(sc, records=sc['records'][:i] + sc['records'][i + 1:])
+        for i, st in enumerate(sc['steps']):
+            for key, val in (('channel', 'path'), ('naming', 'explicit')):
+                if st[key] != val:
+                    yield dict(sc, steps=sc['steps'][:i] + [dict(st, **{key: val})] + sc['steps'][i + 1:])
+        return
     if sc.get('prelude'):
         yield dict(sc, prelude=None)
     for i in range(len(sc['sources'])):
